@@ -1,6 +1,7 @@
 import DilithiumVerif.Impl.Ntt
 import DilithiumVerif.Lemmas.Basic
 import DilithiumVerif.Lemmas.NttBound
+import DilithiumVerif.Lemmas.NttZ
 /-
   C13 — NTT-based multiplication equals negacyclic polynomial multiplication mod q.
   Part 1: kernel-checked facts about the tables regenerated from src/ntt.rs.
@@ -64,5 +65,62 @@ theorem invntt_no_overflow (a : List Int) (hl : a.length = 256) (ha : ∀ x ∈ 
 
 /-- the margin of the inverse transform is thin: 256·q = 2^31 − 2096896 -/
 theorem invntt_margin : 256 * Q = 2147483648 - 2096896 := by decide
+
+/-! ## Part 3: what the transforms compute (all inputs in the documented range)
+
+  The semantic theorems are proved once for every commutative ring K in which q = 0 and 2^32 is invertible
+  (`NttSem.ModQ K`; Lemmas/NttAlg, NttSem, NttEval, NttInv, NttInvSem, NttMul) and instantiated at ℤ/q
+  (Lemmas/NttZ), where they become congruences between integers.  `peval a x` is Σ a[j]·x^j, `brv8` reverses the
+  eight bits of an index, `negmul a b` is the schoolbook product of the two coefficient lists over ℤ folded by
+  X^256 = −1 (`nfold 256 (pmul a b)`). -/
+
+open DV.NttAlg DV.NttEval DV.NttMul DV.NttZ in
+/-- Forward transform: output i ≡ a(1753^(2·brv8(i)+1)) (mod q) — the 256 odd powers of the 512-th root of unity 1753,
+    in bit-reversed order. -/
+theorem ntt_evaluates (a r : List Int) (hl : a.length = 256) (ha : ∀ x ∈ a, -Q < x ∧ x < Q) (h : ntt a = .ok r)
+    (i : Nat) (hi : i < 256) :
+    (r.getD i 0 - peval a ((1753 : Int) ^ (2 * brv8 i + 1))) % 8380417 = 0 := by
+  have hq : Q = 8380417 := by decide
+  exact ntt_eval_Z a r hl Q (by omega) (by omega) ha h i hi
+
+open DV.NttEval in
+/-- brv8 is the 8-bit reversal, checked on the whole index range against the bit formula -/
+theorem brv8_is_bit_reversal : allBelow 256 (fun i => brv8 i ==
+    (i % 2) * 128 + (i / 2 % 2) * 64 + (i / 4 % 2) * 32 + (i / 8 % 2) * 16 + (i / 16 % 2) * 8 + (i / 32 % 2) * 4 + (i / 64 % 2) * 2 + (i / 128 % 2)) = true := by
+  decide +kernel
+
+/-- the evaluation points are exactly the odd powers: i ↦ 2·brv8(i)+1 hits every odd exponent below 512 once
+    (brv8 is an involution on [0, 256)) -/
+theorem brv8_involution : allBelow 256 (fun i => decide (DV.NttEval.brv8 (DV.NttEval.brv8 i) = i ∧ DV.NttEval.brv8 i < 256)) = true := by
+  decide +kernel
+
+open DV.NttZ in
+/-- Inverse transform inverts the forward transform up to the Montgomery factor: for every a in range and every
+    reduced representative b of ntt(a) (|b[i]| < q, b[i] ≡ ntt(a)[i]), invntt_tomont(b)[i] ≡ 2^32·a[i] (mod q);
+    by `invntt_no_overflow` the outputs are below q in magnitude. -/
+theorem invntt_inverts (a y b r : List Int) (hl : a.length = 256) (ha : ∀ x ∈ a, -Q < x ∧ x < Q) (hy : ntt a = .ok y)
+    (hbl : b.length = 256) (hbb : ∀ x ∈ b, -Q < x ∧ x < Q)
+    (hby : ∀ i, i < 256 → (b.getD i 0 - y.getD i 0) % 8380417 = 0) (h : invntt_tomont b = .ok r) (i : Nat) :
+    (r.getD i 0 - 4294967296 * a.getD i 0) % 8380417 = 0 := by
+  have hq : Q = 8380417 := by decide
+  exact invntt_ntt_Z a y b r hl Q (by omega) (by omega) ha hy hbl hbb hby h i
+
+open DV.NttMul DV.NttZ in
+/-- Transform, pointwise product, inverse transform = multiplication in ℤ_q[X]/(X^256+1): for all a, b with coefficients
+    in (−q, q) the four steps succeed (no overflow anywhere), the result lies in (−q, q)^256 and is congruent mod q,
+    coefficient by coefficient, to the negacyclic product computed over ℤ. -/
+theorem ntt_mul_correct (a b : List Int) (hla : a.length = 256) (hlb : b.length = 256)
+    (ha : ∀ x ∈ a, -Q < x ∧ x < Q) (hb : ∀ x ∈ b, -Q < x ∧ x < Q) :
+    ∃ ya yb w r, ntt a = .ok ya ∧ ntt b = .ok yb ∧ poly_pointwise_montgomery ya yb = .ok w ∧ invntt_tomont w = .ok r ∧
+      r.length = 256 ∧ (∀ x ∈ r, -Q < x ∧ x < Q) ∧ ∀ i, (r.getD i 0 - (negmul a b).getD i 0) % 8380417 = 0 :=
+  ntt_mul_Z a b hla hlb ha hb
+
+open DV.NttMul in
+/-- `negmul` is what it should be on a small instance that wraps around: (X^255)·(X) = X^256 = −1 -/
+example : negmul ((List.replicate 255 (0:Int)) ++ [1]) (0 :: 1 :: List.replicate 254 0) = (-1) :: List.replicate 255 0 := by
+  decide +kernel
+
+/-- the hypotheses of the ring-generic theorems are satisfiable by a non-trivial ring (ℤ/q, 1 ≠ 0) -/
+theorem ring_instance_nontrivial : (1 : ZMod 8380417) ≠ 0 := DV.NttZ.zmod_nontrivial
 
 end DV.C13
